@@ -404,6 +404,9 @@ pub struct Inst {
     /// the running lookup was processed; a request of the running lookup was dropped without the
     /// lookup being told (answer of the wrong kind / from another address, failure after packets
     /// that held nothing acceptable); nodes the running lookup was seen to ask a second time
+    /// a second lookup runs next to the first (profile C09conc): the per-lookup ledgers above do not apply
+    pub query2: Option<tokio::task::JoinHandle<String>>,
+    pub concurrent: bool,
     pub query_epoch: u64,
     pub query_answered: std::collections::HashSet<[u8; 32]>,
     pub query_lost: bool,
@@ -520,6 +523,8 @@ impl Inst {
             vote_min: vote_min.max(2),
             query_start: Vec::new(),
             query_asked: Default::default(),
+            query2: None,
+            concurrent: false,
             query_epoch: 0,
             query_answered: Default::default(),
             query_lost: false,
@@ -1151,6 +1156,9 @@ impl ServiceRunner {
             s.push_str(&format!(" q={}", q.join(",")));
         }
         // C09: a lookup never sends its request to the same node twice
+        if inst.concurrent {
+            inst.query_dup.clear();
+        }
         for d in inst.query_dup.drain(..) {
             s.push_str(&format!("\n!MON C09 lookup-sent-its-request-to-the-same-node-twice id={}", id8(&d)));
         }
@@ -1167,7 +1175,7 @@ impl ServiceRunner {
                     so.items.push(format!("qres:{}:{}", n, ids));
                 }
                 // C10: every node of the result answered a request of *this* lookup
-                if ids != "-" {
+                if ids != "-" && !inst.concurrent {
                     let answered: std::collections::HashSet<String> = inst.query_answered.iter().map(|i| id8(i)).collect();
                     for id in ids.split(',') {
                         if !answered.contains(id) {
@@ -1194,7 +1202,7 @@ impl ServiceRunner {
                 // (whatever happened to their entries while it ran)
                 if let Some(n) = r.strip_prefix("ok:").and_then(|n| n.split(':').next().unwrap_or("").parse::<usize>().ok()) {
                     let k = inst.query_k.unwrap_or(16);
-                    if n < k {
+                    if n < k && !inst.concurrent {
                         if let Some(miss) = inst.query_start.iter().find(|id| !inst.query_asked.contains(*id)) {
                             s.push_str(&format!(
                                 "\n!MON C10 lookup-short-although-a-start-candidate-was-never-asked id={} got={} k={}",
@@ -1211,6 +1219,7 @@ impl ServiceRunner {
         // C09: a lookup whose requests have all been answered or have failed goes on (another request,
         // or its result) - it is not left waiting for something that will never come
         if inst.query.is_some()
+            && !inst.concurrent
             && !inst.query_lost
             && !inst.reqs.iter().any(|r| r.is_query && r.epoch == inst.query_epoch && r.outstanding)
         {
@@ -2167,9 +2176,43 @@ impl Runner for ServiceRunner {
                     }
                 }
                 stats.bump("s.failures");
+                // C09: a failed request frees one place in one lookup: at most one further request goes
+                // out because of it, however many lookups are running
+                {
+                    let inst = &self.insts[&x];
+                    let newq = so.new_reqs.iter().filter(|k| inst.reqs[**k - 1].is_query).count();
+                    // (a failure after packets of the answer were collected is processed as an answer)
+                    if is_q && inst.reqs[k - 1].packets.is_empty() && newq > 1 {
+                        out.push(format!("!MON C09 one-failed-request-let-{}-further-lookup-requests-out", newq));
+                    }
+                }
                 let sfx = self.query_suffix(x, &mut so);
                 out.push(format!("!OP sfail {} r{}{}", x, k, sfx));
                 self.finish(x, "sfail", None, so, None, out, stats);
+            }
+            // a second lookup next to the running one (monitors-only profile: the model runs one at a time)
+            ["squery2", _, target] => {
+                let Some(tg) = parse_peer(target) else { return noop(out) };
+                if self.insts[&x].query2.is_some() {
+                    return noop(out);
+                }
+                let d = &self.insts[&x].discv5;
+                let fut = d.find_node(NodeId::new(&tg));
+                let h = self.rt.as_ref().unwrap().spawn(async move {
+                    match fut.await {
+                        Ok(v) => format!("ok:{}", v.len()),
+                        Err(_) => "err".to_string(),
+                    }
+                });
+                {
+                    let inst = self.insts.get_mut(&x).unwrap();
+                    inst.query2 = Some(h);
+                    inst.concurrent = true;
+                }
+                let so = self.observe(x, true, false);
+                stats.bump("s.second-lookup-started");
+                out.push(format!("!OP squery2 {}", x));
+                self.finish(x, "squery2", None, so, None, out, stats);
             }
             // `squery X TARGET` plain lookup; `squery X TARGET K` predicate lookup (predicate: any
             // record) for at most K nodes
@@ -3268,6 +3311,29 @@ pub fn gen_case(rng: &mut Rng, tier: &str, profile: &str, stats: &mut Stats) -> 
     }
     if profile == "C16" {
         gen_c16(rng, &mut ops, stats);
+        return ops;
+    }
+    if profile == "C09conc" {
+        // two lookups at once over a table of 6-9 nodes: both are at their parallelism with candidates
+        // left; requests fail one by one - each failure lets at most one further request out
+        stats.bump("gen.c09.concurrent-lookups");
+        ops.push(format!("snew A k{} 1 4 0 ip4 all 16 16 0", rng.range(1, 40)));
+        for i in 0..rng.range(6, 9) {
+            ops.push(format!("sest A k{}:1:4:0 = {}", 300 + i * 7 + rng.below(5), if rng.chance(1, 2) { "o" } else { "i" }));
+        }
+        ops.push(format!("squery A {}", hex::encode(rng.bytes(32))));
+        ops.push(format!("squery2 A {}", hex::encode(rng.bytes(32))));
+        for _ in 0..rng.range(8, 20) {
+            if rng.chance(3, 4) {
+                ops.push("sfail A #q".into());
+            } else {
+                ops.push(format!("sresp A #q ok nodes 1 {}", if rng.chance(1, 2) { "-".to_string() } else { format!("@in:{}", rng.below(1000)) }));
+            }
+        }
+        for _ in 0..40 {
+            ops.push("sfail A #q".into());
+        }
+        ops.push("stable A".into());
         return ops;
     }
     if profile == "C09" && rng.chance(1, 2) {
